@@ -67,6 +67,7 @@ struct vs_thread {
     int pc;
     int spin_obj, spin_count, spin_yielded;
     int mutex_for_wake;
+    int last_lock_seq; /* index of the schedule point at which this thread was last granted a mutex */
 };
 struct vs_obj {
     const void *addr;
@@ -420,6 +421,7 @@ int __wrap_pthread_mutex_lock(pthread_mutex_t *m) {
     }
     vs_yield(VOP_LOCK, o);
     vs_objs[o].owner = vs_me;
+    vs_th[vs_me].last_lock_seq = vs_res->npoints;
     return 0;
 }
 int __wrap_pthread_mutex_trylock(pthread_mutex_t *m) {
@@ -613,6 +615,10 @@ static int vs_threads_unfinished(void) {
 static int vs_threads_created(void) { return vs_nthreads - 1; }
 static int vs_thread_was_joined(int t) { return vs_joined[t] == 1; }
 static int vs_current_tid(void) { return vs_me; }
+/* total order of schedule points in this execution: lets an oracle compare "call X returned" with "thread T last took a
+ * lock" without guessing */
+static int vs_seq_now(void) { return vs_res->npoints; }
+static int vs_last_lock_seq(int tid) { return vs_th[tid].last_lock_seq; }
 static uint64_t vs_now_ns(void) { return vs_clock_ns; }
 
 /* ------------------------------------------------------------------ explorer (parent) -------- */
@@ -789,8 +795,10 @@ static void vsx_explore(const struct vsx_scenario *sc, int bound) {
             slots[s].job = job;
             slots[s].started = v_now();
             fflush(stdout);
+            v_sh->slot[s].report[0] = 0;
             pid_t pid = fork();
             if (pid == 0) {
+                v_worker = s; /* an ASan report of this execution lands in this slot */
                 alarm(60);
                 vsx_child(sc, slots[s].res, job.choices, job.len);
                 _exit(0);
@@ -826,15 +834,26 @@ static void vsx_explore(const struct vsx_scenario *sc, int bound) {
         for (int i = 0; i < r->npoints; ++i) vsx_set_add(&vsx_states, r->pts[i].digest);
         if (r->status == 0) {
             /* died without finishing: ASan report, signal or alarm inside the library under this schedule */
-            char sig[200];
+            char sig[200], kind[64] = "", frames[400] = "-";
+            if (v_sh->slot[s].report[0]) v_parse_report((const char *)v_sh->slot[s].report, kind, sizeof(kind), frames, sizeof(frames));
             if (WIFSIGNALED(status) && WTERMSIG(status) == SIGALRM)
                 snprintf(sig, sizeof(sig), "%s/hang-real-time", sc->name);
+            else if (kind[0])
+                snprintf(sig, sizeof(sig), "%s/asan:%s", sc->name, kind);
             else if (WIFSIGNALED(status))
                 snprintf(sig, sizeof(sig), "%s/signal:%d", sc->name, WTERMSIG(status));
             else
                 snprintf(sig, sizeof(sig), "%s/asan-or-abort", sc->name);
-            v_crumb("%s", tok);
-            v_viol(sig, "execution died (wait status %#x) after %d points under schedule %s", status, r->npoints, tok);
+            __sync_fetch_and_add(&v_sh->viol_count, 1);
+            V_COUNT("violations_raw", 1);
+            {
+                char key[300];
+                snprintf(key, sizeof(key), "%s@%.40s", sig, frames);
+                if (v_sig_admit(key)) {
+                    const char *e = v_sh->slot[s].report[0] ? strstr((const char *)v_sh->slot[s].report, "ERROR:") : NULL;
+                    v_out("VIOL sig=%s replay=%s frames=%s :: execution died (wait status %#x) after %d points: %.200s", sig, tok, frames, status, r->npoints, e ? e : "(no sanitizer report)");
+                }
+            }
             viol++;
         } else if (r->status == 2) {
             char sig[300];
@@ -895,8 +914,10 @@ static int vsx_replay(const struct vsx_scenario *sc, const char *token) {
     }
     struct vs_result *res = (struct vs_result *)mmap(NULL, sizeof(struct vs_result), PROT_READ | PROT_WRITE, MAP_SHARED | MAP_ANONYMOUS, -1, 0);
     fflush(stdout);
+    v_sh->slot[0].report[0] = 0;
     pid_t pid = fork();
     if (pid == 0) {
+        v_worker = 0;
         alarm(120);
         vsx_child(sc, res, pre, n);
         _exit(0);
@@ -913,10 +934,13 @@ static int vsx_replay(const struct vsx_scenario *sc, const char *token) {
         v_viol(sig, "%s", res->msg);
         rc = 1;
     } else if (res->status == 0) {
-        char sig[200];
-        snprintf(sig, sizeof(sig), "%s/%s", sc->name, WIFSIGNALED(status) ? "signal" : "asan-or-abort");
-        v_crumb("%s", token);
-        v_viol(sig, "execution died (wait status %#x)", status);
+        char sig[200], kind[64] = "", frames[400] = "-";
+        if (v_sh->slot[0].report[0]) v_parse_report((const char *)v_sh->slot[0].report, kind, sizeof(kind), frames, sizeof(frames));
+        if (kind[0]) snprintf(sig, sizeof(sig), "%s/asan:%s", sc->name, kind);
+        else if (WIFSIGNALED(status)) snprintf(sig, sizeof(sig), "%s/signal:%d", sc->name, WTERMSIG(status));
+        else snprintf(sig, sizeof(sig), "%s/asan-or-abort", sc->name);
+        __sync_fetch_and_add(&v_sh->viol_count, 1);
+        v_out("VIOL sig=%s replay=%s frames=%s :: execution died (wait status %#x)", sig, token, frames, status);
         rc = 1;
     } else if (res->status == 3) {
         v_out("INFO harness error: %s", res->msg);
